@@ -258,8 +258,19 @@ def run(prog, rep):
         if jp not in ci.param_names() or strip_casts(jst[0]["r"])["k"] != "ref":
             okd, msgd = False, "line %d: the handle's joinable flag is %s, not the joinable argument" % (line(jst[0]), show(jst[0]["r"]))
         else:
-            vt = guards.eval_const(sd[0]["args"][1], guards.add_fact(guards.EMPTY, jp, "==", 1))
-            vf = guards.eval_const(sd[0]["args"][1], guards.add_fact(guards.EMPTY, jp, "==", 0))
+            def state_for(jv):
+                """the constant handed to setdetachstate on every path when the joinable argument is jv (through a ternary, an if/else
+                into a local, or a helper)"""
+                got = set()
+
+                def st_(st, b, i, stmt):
+                    for c_ in calls(stmt):
+                        if c_.get("callee") == "pthread_attr_setdetachstate":
+                            got.add(guards.eval_const(c_["args"][1], st))
+                    return [guards.transfer(st, stmt, kill_calls=False)]
+                Flow(ci, [guards.add_fact(guards.EMPTY, jp, "==", jv)], st_, lambda st, b, to, on: guards.edge_assume(st, b, on)).run()
+                return got.pop() if len(got) == 1 else None
+            vt, vf = state_for(1), state_for(0)
             if (vt, vf) != (PTHREAD_CREATE_JOINABLE, PTHREAD_CREATE_DETACHED):
                 okd, msgd = False, ("line %d: the native detach state is %s for a joinable handle and %s for a non-joinable one (JOINABLE = 0, DETACHED = 1): "
                                     "join waits on a detached native thread, or a detached-by-request thread is never reaped" % (line(sd[0]), vt, vf))
@@ -385,9 +396,22 @@ def run(prog, rep):
             rv = strip_casts(stmt.get("e"))
             if holder == "live" or (holder == "cas"):
                 P5.append(("a path returns with the key holder allocated in this call neither published nor freed", line(stmt)))
-            if holder == "freed" and rv is not None and rv["k"] == "ref" and var is not None and rv["name"] in gk.copies_of(var) and not any(
-                    fop == "=:" and fk in gk.copies_of(var) and "->key" in str(fv) for (fk, fop, fv) in facts2):
-                P5.append(("the freed key holder is returned to the caller", line(stmt)))
+            if holder == "freed" and rv is not None and rv["k"] == "ref" and var is not None and rv["name"] in gk.copies_of(var):
+                # what the returned variable holds on THIS path: follow the alias facts (`ret = thread_key`, `thread_key = key->key`, `ret = NULL`)
+                cur, val = rv["name"], None
+                for _hop in range(4):
+                    if guards.lookup(facts2, cur) == 0:
+                        val = "null"
+                        break
+                    nxt = [fv for (fk, fop, fv) in facts2 if fop == "=:" and fk == cur]
+                    if not nxt:
+                        break
+                    if not (isinstance(nxt[0], str) and nxt[0] in gk.copies_of(var)):
+                        val = nxt[0]
+                        break
+                    cur = nxt[0]
+                if val is None or (isinstance(val, str) and val.startswith(("p_malloc", "malloc"))):
+                    P5.append(("the freed key holder is returned to the caller", line(stmt)))
             if holder == "lost":
                 counts["loser"] += 1
             if native == "created" and holder == "freed" and not lost_flag(facts2):
